@@ -277,7 +277,8 @@ def classify_leak(out, rerun, calls=None):
     if exc in ('ValueError', 'TypeError', 'OverflowError') and site and site.startswith('p_') and \
             rfile in ('_cim_obj.py', '_cim_types.py', '_utils.py', '_nocasedict.py'):
         return 'value_type_mismatch'
-    if exc == 'TypeError' and (site == 'compile_embedded_value' or raiser == 'input'):
+    if (exc == 'TypeError' and (site == 'compile_embedded_value' or raiser == 'input')) or \
+            (exc == 'RuntimeError' and site == 'compile_embedded_value' and raiser == 'token'):
         return 'embedded_value_not_string'
     last = calls[-1] if calls else None
     if exc == 'AttributeError' and site in ('p_mp_createClass', 'p_mp_setQualifier', 'p_qualifier') and raiser == site \
@@ -521,6 +522,8 @@ def run(run):
     k_repo(run, cases, observations)
     # ---- K 5: lexer error => MOFParseError at or before it
     k_first_error(run, cases, observations)
+    # ---- K 6: values the CIM object constructors reject are reported as MOFParseError
+    k_values(run, rng)
 
 
 def k_lexer(run, cases, observations):
@@ -691,6 +694,70 @@ def k_first_error(run, cases, observations):
         if (out['lineno'], out['column']) not in cs:
             run.disagree({'op': 'first_error', 'mof': cases[i]['mof']}, sorted(cs)[-3:], [out['lineno'], out['column']],
                          'error position is not the model position of a token up to the first error token')
+
+
+VAL_TYPES = ['uint8', 'sint8', 'uint16', 'sint32', 'uint64', 'sint64', 'real32', 'real64', 'string', 'boolean', 'datetime',
+             'char16']
+
+
+def val_literals():
+    import pywbem   # noqa: F401
+    return [('5', 5), ('300', 300), ('-1', -1), ('-129', -129), ('65536', 65536), ('18446744073709551616', 2 ** 64),
+            ('0x1F', 31), ('010', 8), ('101b', 5), ('"abc"', 'abc'), ('"5"', '5'), ('""', ''), ('true', True), ('FALSE', False),
+            ('null', None), ('1.5', 1.5), ('-.5e3', -500.0), ('1.5e400', float('inf')), ("'a'", "'a'"),
+            ('"20200101120000.000000+000"', '20200101120000.000000+000'), ('"12345678121212.000000:000"', '12345678121212.000000:000'),
+            ('"2020"', '2020'), ('{1,2}', [1, 2]), ('{}', []), ('{"a"}', ['a']), ('{null}', [None]), ('{1, "a"}', [1, 'a']),
+            ('{300}', [300]), ('{true}', [True])]
+
+
+def k_values(run, rng):
+    """class C { T p = LIT; } / T p[] = LIT / Qualifier Q : T = LIT: the compile outcome must be what the model's
+    _cim_object makes of the outcome of the CIM object constructor called directly with the same value"""
+    import pywbem
+    comp = L.new_compiler()
+    lits = val_literals()
+    combos = [(t, l, arr, form) for t in VAL_TYPES for l in lits for arr in (False, True) for form in ('prop', 'qualdecl')]
+    rng.shuffle(combos)
+    combos = combos[:(2000 if run.thorough else 260)]
+    reqs, refs = [], []
+    for n, (t, (text, val), arr, form) in enumerate(combos):
+        try:
+            if form == 'prop':
+                pywbem.CIMProperty('p', val, type=t, **({'is_array': True} if arr else {}))
+            else:
+                pywbem.CIMQualifierDeclaration('C09V_Q%d' % n, t, value=val, is_array=arr, array_size=None,
+                                               scopes={'ANY': True})
+            direct = {'ok': None}
+        except (ValueError, TypeError, OverflowError) as e:
+            direct = {'exc': type(e).__name__}
+        except Exception as e:     # the hypothesis of C09_actions_value_no_leak does not cover it: report, do not model
+            run.notes.append('constructor raised %s for %s %r' % (type(e).__name__, t, val))
+            continue
+        if form == 'prop':
+            mof = 'class C09V_C%d { %s p%s = %s; };' % (n, t, '[]' if arr else '', text)
+        else:
+            mof = 'Qualifier C09V_Q%d : %s%s = %s, Scope(any);' % (n, t, '[]' if arr else '', text)
+        out = L.outcome_of(lambda: comp.compile_string(mof, None))
+        run.case({'kind': 'value', 'mof': mof}, nontrivial='exc' in direct)
+        run.count('value:' + ('ok' if out.get('ok') else str(out.get('exc'))))
+        case = {'kind': 'string', 'mof': mof, 'ns': None, 'tag': 'value'}
+        obs = {'out': out}
+        if out.get('mof'):
+            obs['unit'] = 'outer'
+            obs['pos'] = L.position_verdict(out, {None: mof})
+        elif not out.get('ok') and not out.get('timeout'):
+            obs['cause'] = classify_leak(out, lambda: L.outcome_of(lambda: L.new_compiler().compile_string(mof, None)))
+            comp = L.new_compiler()
+        for sig, observed in judge(case, obs):
+            run.violate(sig, case, observed)
+        reqs.append({'op': 'cimObject', 'r': direct})
+        refs.append((mof, direct, out))
+    answers = common.run_driver(PROP, reqs) if reqs else []
+    for (mof, direct, out), a in zip(refs, answers):
+        impl = {'ok': None} if out.get('ok') else {'exc': out.get('exc')}
+        if a != impl:
+            run.disagree({'op': 'cimObject', 'mof': mof, 'constructor': direct}, a, impl,
+                         'compile outcome is not the translated constructor outcome')
 
 
 # --------------------------------------------------------------------------- search / replay
